@@ -80,6 +80,8 @@ def payload_spec_st(draw, big=True):
 def frame_spec_st(draw, big=True, header_only_weight=1, long_addr=False):
     """A well-formed frame specification: dict(ftype, seg, dest, src, control, info(None|bytes)).
     long_addr: also address fields of 5..8 octets (ISO 13239 allows any extension; C02 limits itself to 1..4)."""
+    if draw(st.integers(0, 24)) == 24:
+        return dict(draw(st.sampled_from(SPECIAL_SPECS)))  # check sequences equal to 00 00
     dest = draw(address_st(long=long_addr))
     src = draw(address_st(long=long_addr))
     ftype = draw(st.sampled_from([0xA, 0xA, 0xA, 0x0, 0x7, 0xF, 0x3]))
@@ -98,6 +100,19 @@ def frame_spec_st(draw, big=True, header_only_weight=1, long_addr=False):
         if big and draw(st.integers(0, 30)) == 30:
             info = expand_payload("dense" if mode == "dense" else "random", room, seed)  # exactly the 2047-octet maximum
     return {"ftype": ftype, "seg": seg, "dest": dest, "src": src, "control": control, "info": info}
+
+
+# Frames whose check sequences have special values (found by a one-off search, verified by build_frame at import):
+# header check sequence 00 00 with a 4-octet information field; header-only frame with FCS 00 00; information field giving FCS 00 00.
+SPECIAL_SPECS = [
+    {"ftype": 0xA, "seg": 0, "dest": b"\x01", "src": b"\x1e\x01", "control": 162, "info": b"abcd"},
+    {"ftype": 0xA, "seg": 0, "dest": b"\x05", "src": b"\xd2\x01", "control": 201, "info": b"\x00\x01\x02\x03"},
+    {"ftype": 0xA, "seg": 0, "dest": b"\x0b", "src": b"\xf0\x01", "control": 81, "info": b"~}^]"},
+    {"ftype": 0xA, "seg": 0, "dest": b"\x01", "src": b"$\x01", "control": 234, "info": None},
+    {"ftype": 0xA, "seg": 0, "dest": b"\x05", "src": b"\xe8\x01", "control": 129, "info": None},
+    {"ftype": 0xA, "seg": 0, "dest": b"\x01", "src": b"\x02\x01", "control": 0x10, "info": b"\xe6\x00IM"},
+    {"ftype": 0xA, "seg": 0, "dest": b"\x01", "src": b"\x02\x01", "control": 0x10, "info": b"\xe6\x01\xc0\\"},
+]
 
 
 def frame_from_spec(spec) -> bytes:
@@ -274,3 +289,9 @@ def defect_frame_st(draw):
     if kind == "drop-last":
         return kind, good[:-1]
     return kind, good[:-2] + good[-2:][::-1]
+
+
+for _s in SPECIAL_SPECS[:3]:
+    assert frame_from_spec(_s)[header_len(_s) - 2 : header_len(_s)] == b"\x00\x00"
+for _s in SPECIAL_SPECS[3:]:
+    assert frame_from_spec(_s)[-2:] == b"\x00\x00"
